@@ -4,11 +4,14 @@ package c11
 
 import (
 	"fmt"
+	"os"
 	"runtime"
 	"sync"
 	"sync/atomic"
+	"syscall"
 	"testing"
 	"time"
+	"unsafe"
 
 	mocker "github.com/tencent/goom"
 	"github.com/tencent/goom/arg"
@@ -60,6 +63,11 @@ func TestC11(t *testing.T) {
 		}
 		fmu.Unlock()
 	}
+	unwritable := unwritableFunc()
+	if unwritable == nil {
+		rep.Note("unwritable-target", "no read-only shared mapping could be set up: the failing-apply builder is not exercised")
+	}
+	var faultAttempts, faultedApplies int64
 	flushFails := func() {
 		fmu.Lock()
 		for _, f := range fails {
@@ -293,6 +301,27 @@ func TestC11(t *testing.T) {
 			}(q)
 		}
 		// every mocker works on targets of its own: they all finish; if none does for minutes they have wedged one another
+		// a builder whose target the operating system refuses to make writable (a read-only shared file mapping): its
+		// applies fail again and again, with panics it recovers from; nobody else is held up by that
+		if unwritable != nil {
+			mg.Add(1)
+			go func() {
+				defer mg.Done()
+				fb := mocker.Create()
+				for it := 0; it < iters*2; it++ {
+					func() {
+						defer func() {
+							if recover() != nil {
+								atomic.AddInt64(&faultedApplies, 1)
+							}
+						}()
+						fb.Func(unwritable).Return(1)
+					}()
+					func() { defer func() { recover() }(); fb.Reset() }()
+					atomic.AddInt64(&faultAttempts, 1)
+				}
+			}()
+		}
 		mdone := make(chan struct{})
 		go func() { mg.Wait(); close(mdone) }()
 		select {
@@ -312,6 +341,8 @@ func TestC11(t *testing.T) {
 		rep.Stat("steady_calls_begun_while_a_writer_was_inside_goom", overlapped)
 		rep.Stat("patch_api_operations", patchOps)
 		rep.Stat("refused_configurations_under_concurrency", rejections)
+		rep.Stat("applies_on_an_unwritable_target", atomic.LoadInt64(&faultAttempts))
+		rep.Stat("applies_on_an_unwritable_target_that_panicked", atomic.LoadInt64(&faultedApplies))
 		rep.Stat("rounds", 1)
 		rep.Class(fmt.Sprintf("mockers%d/callers%d", bkt(M), bkt(N)))
 		// quiescence: everything restored
@@ -356,3 +387,43 @@ func bkt(n int) int {
 	}
 	return 32
 }
+
+// unwritableFunc returns a func(int) int whose code lies in a MAP_SHARED mapping of a memfd reopened read-only:
+// mprotect(PROT_WRITE) on it fails with EACCES whatever the process may do. nil if that cannot be set up.
+func unwritableFunc() func(int) int {
+	name := []byte("c11-unwritable\x00")
+	fd, _, errno := syscall.Syscall(319 /* memfd_create */, uintptr(unsafe.Pointer(&name[0])), 0, 0)
+	if errno != 0 {
+		return nil
+	}
+	page := make([]byte, syscall.Getpagesize())
+	for i := range page {
+		page[i] = 0xCC
+	}
+	// mov eax, 7; nops; ret - long enough for the entry jump
+	copy(page, []byte{0xB8, 0x07, 0x00, 0x00, 0x00, 0x90, 0x90, 0x90, 0x90, 0x90, 0x90, 0x90, 0x90, 0x90, 0x90, 0x90, 0xC3})
+	if _, err := syscall.Write(int(fd), page); err != nil {
+		return nil
+	}
+	ro, err := os.Open(fmt.Sprintf("/proc/self/fd/%d", fd))
+	if err != nil {
+		return nil
+	}
+	mem, err := syscall.Mmap(int(ro.Fd()), 0, len(page), syscall.PROT_READ|syscall.PROT_EXEC, syscall.MAP_SHARED)
+	if err != nil {
+		mem, err = syscall.Mmap(int(ro.Fd()), 0, len(page), syscall.PROT_READ, syscall.MAP_SHARED)
+	}
+	if err != nil {
+		return nil
+	}
+	if e := syscall.Mprotect(mem, syscall.PROT_READ|syscall.PROT_WRITE); e == nil {
+		return nil
+	}
+	fv := &struct{ code uintptr }{code: uintptr(unsafe.Pointer(&mem[0]))}
+	var f func(int) int
+	*(*unsafe.Pointer)(unsafe.Pointer(&f)) = unsafe.Pointer(fv)
+	unwritableKeep = append(unwritableKeep, fv, mem, ro)
+	return f
+}
+
+var unwritableKeep []interface{}
